@@ -74,14 +74,13 @@ theorem altitude_spec (p : AltP) (hp : p = camAlt ∨ p = vamAlt ∨ p = denmAlt
     (800000 ≤ x → a = Cam.AltitudeValue_postiveOutOfRange) ∧
     (-100000 < x → x < 800000 → (x - 1 < (a : Rat) ∧ (a : Rat) < x + 1) ∧
       a ≠ Cam.AltitudeValue_negativeOutOfRange ∧ a ≠ Cam.AltitudeValue_postiveOutOfRange ∧ a ≠ Cam.AltitudeValue_unavailable) := by
-  have hg : p = goodAlt := by
+  have hg : altitudeG p x = altitudeG goodAlt x := by
     rcases hp with h | h | h <;> rw [h]
-    · exact camAlt_good
-    · exact vamAlt_good
-    · exact denmAlt_good
-  subst hg
+    · exact altitudeG_congr camAlt_ok x
+    · exact altitudeG_congr vamAlt_ok x
+    · exact altitudeG_congr denmAlt_ok x
   obtain ⟨h1, h2, h3, h4⟩ := altitudeG_spec x
-  simp only [altitude, Cam.AltitudeValue_lo, Cam.AltitudeValue_hi, Cam.AltitudeValue_negativeOutOfRange,
+  simp only [altitude, hg, Cam.AltitudeValue_lo, Cam.AltitudeValue_hi, Cam.AltitudeValue_negativeOutOfRange,
     Cam.AltitudeValue_postiveOutOfRange, Cam.AltitudeValue_unavailable]
   refine ⟨by omega, h2, h3, fun a b => ?_⟩
   obtain ⟨hc, h5, h6⟩ := h4 a b
@@ -140,14 +139,11 @@ theorem speed_spec (f : Option Rat → Int) (hf : f = camSpeed ∨ f = vamSpeed)
     (Cam.SpeedValue_lo ≤ v ∧ v < Cam.SpeedValue_unavailable) ∧
     (16382 ≤ x → v = Cam.SpeedValue_outOfRange) ∧
     (x < 16382 → (x - 1 < (v : Rat) ∧ (v : Rat) < x + 1) ∧ v < Cam.SpeedValue_outOfRange) := by
-  have hp := speed_params_good
-  simp only [Prod.mk.injEq] at hp
-  obtain ⟨⟨c1, c2, c3⟩, ⟨v1, v2, v3⟩⟩ := hp
   obtain ⟨h1, h2, h3⟩ := speedG_spec x h0
   have : f (some x) = speedG 2 16381 16382 x := by
     rcases hf with h | h <;> rw [h]
-    · simp only [camSpeed, c1, c2, c3]
-    · simp only [vamSpeed, v1, v2, v3]
+    · exact speedG_congr speed_ok.1 x
+    · exact speedG_congr speed_ok.2 x
   simp only [this, Cam.SpeedValue_lo, Cam.SpeedValue_unavailable, Cam.SpeedValue_outOfRange]
   refine ⟨by omega, h2, fun h => ?_⟩
   obtain ⟨a, b⟩ := h3 h
@@ -179,7 +175,7 @@ theorem ellipse_major_ge_minor_cam_vam (epx epy : Err)
     (camEllipse (some (epx, epy))).minor ≤ (camEllipse (some (epx, epy))).major ∧
     vamEllipse (some (epx, epy)) = camEllipse (some (epx, epy)) ∧
     1 ≤ (camEllipse (some (epx, epy))).minor ∧ (camEllipse (some (epx, epy))).major ≤ 4094 := by
-  have hv : VAM_ELLIPSE_OWN = 0 := semiAxis_params_good.2
+  have hv : VAM_ELLIPSE_OWN = 0 := semiAxis_ok.2
   have hmm := ellipse_major_ge_minor epx epy hmono
   simp only [camEllipse, vamEllipse, hv, if_true, semiAxis_eq]
   refine ⟨hmm, trivial, ?_, ?_⟩
